@@ -337,7 +337,7 @@ Qed.
 Lemma bootstrap_tracked i st : m_bootstrap i = Ok st -> tracked_inv st.
 Proof.
   unfold m_bootstrap.
-  set (st0 := {| m_parsers := []; m_listp := _; m_defaults := _; m_config := []; m_unsaved := [] |}).
+  set (st0 := {| m_parsers := []; m_listp := _; m_defaults := _; m_config := _; m_unsaved := [] |}).
   assert (boot_inv st0) as H0.
   { split; [|split]; [intros k ty Hk; discriminate|intros k v [_ [pk [vk Hk]]]; discriminate|reflexivity]. }
   assert (forall rows s s1, boot_inv s -> setup_rows (i_store i) s rows = Ok s1 -> boot_inv s1) as Hrows.
@@ -401,7 +401,7 @@ Definition p_table : list (bytes * bytes) :=
   [(bs "SocksPort", bs "Dependent"); (bs "SocksPortLines", bs "Virtual"); (bs "__SocksPort", bs "Dependent");
    (bs "Log", bs "LineList"); (bs "ExitNodes", bs "RouterList"); (bs "Nickname", bs "String"); (bs "NumCPUs", bs "Integer")].
 Definition p_input store defaults ops : cfg_input :=
-  {| i_table := p_table; i_store := store; i_defaults := defaults; i_ops := ops |}.
+  {| i_table := p_table; i_store := store; i_defaults := defaults; i_pre := None; i_ops := ops |}.
 Definition p_store : list (bytes * list bytes) :=
   [(bs "SocksPort", [bs "9050"]); (bs "Log", [bs "notice stdout"]); (bs "Nickname", [bs "bob"]); (bs "NumCPUs", [bs "2"])].
 
@@ -482,6 +482,18 @@ Definition w11_reset := p_input p_store (Some [(bs "NumCPUs", bs "0")])
 Lemma f11_reset_accepted :
   accepted11 w11_reset 1 (XVal (RAtom (AInt 8))) /\ accepted11 w11_reset 3 (XVal (RAtom (AInt 0))) /\
   accepted11 w11_reset 4 (XVal (RAtom (AStr (bs "DEFAULT")))).
+Proof. split; [accept|split; accept]. Qed.
+
+(* the second way to reach the attached state: TorConfig(), assignments (not validated, never sent),
+   attach_protocol().  Afterwards the view is Tor's configuration, exactly as with TorConfig(protocol) *)
+Definition w11_attach :=
+  {| i_table := p_table; i_store := p_store; i_defaults := Some [];
+     i_pre := Some [(bs "SocksPort", PList [AInt 9050%Z; AStr (bs "1337")]); (bs "NumCPUs", PAtom (ABool true))];
+     i_ops := [OpRead (bs "NumCPUs"); OpRead (bs "SocksPort"); OpAssign (bs "NumCPUs") (PAtom (AInt 4%Z));
+               OpEvent [(bs "NumCPUs", Some (bs "8"))]; OpSave None; OpRead (bs "numcpus")] |}.
+Lemma f11_attach_accepted :
+  accepted11 w11_attach 0 (XVal (RAtom (AInt 2))) /\ accepted11 w11_attach 1 (XVal (RList true [bs "9050"])) /\
+  accepted11 w11_attach 5 (XVal (RAtom (AInt 4))).
 Proof. split; [accept|split; accept]. Qed.
 
 Lemma f11_5_refuted : refutes11 w11_f5 /\ edit_while_detached w11_f5 = true.
